@@ -17,6 +17,7 @@ from sa.report import where
 from sa.util import bind_args, const_of, defaults_of, enclosing_class, enclosing_function, find_calls
 
 A, C, P = 'absent', 'complete', 'partial'
+_PROG = None
 SIBLINGS = ('', '.old', '.new')
 
 WRITER = 'torchtree.core.parameter_utils'
@@ -85,6 +86,7 @@ class Interp:
         self.visited: Dict[FS, Tuple[str, int]] = {}  # crash states -> (effect text, line)
         self.effects_seen: Set[str] = set()
         self.tmp_count = 0
+        self.write_exceptions = True     # model death by an exception raised while writing (unwinding runs finally blocks)
 
     # ---- path expressions -------------------------------------------
     def path_key(self, e: ast.AST, env) -> str:
@@ -138,6 +140,8 @@ class Interp:
             return out
         if isinstance(e, ast.UnaryOp) and isinstance(e.op, ast.Not):
             return {not v for v in self.eval_cond(e.operand, fs, env)}
+        if isinstance(e, ast.Constant):
+            return {bool(e.value)}
         if isinstance(e, ast.Name):
             if e.id in self.flags and self.flags[e.id] is not None:
                 return {bool(self.flags[e.id])}
@@ -176,6 +180,65 @@ class Interp:
                 ):
                     return True
         return False
+
+
+    # ---- context-manager helpers defined in the package (generator functions used with `with`) ----------------------
+    def _context_helper(self, call: ast.Call):
+        name = (dotted_name(call.func) or '').split('.')[-1]
+        prog = getattr(self.module, '_prog', None) or _PROG
+        if prog is None or not name:
+            return None
+        cands = []
+        for m in prog.modules.values():
+            f = m.functions.get(name)
+            if f is not None and any((dotted_name(d) or '').endswith('contextmanager') for d in f.decorator_list):
+                cands.append((m, f))
+        return cands[0] if len(cands) == 1 else None
+
+    def _inline_context_helper(self, st: ast.With, item, call: ast.Call, state):
+        """`with helper(args) as fp: BODY`  ≡  the helper's body with its `yield X` replaced by `fp = X; BODY` (try/finally around the yield keeps its meaning)"""
+        import copy
+        hm, hf = self._context_helper(call)
+        bound = bind_args(hf, call)
+        dfl = defaults_of(hf)
+        pre = []
+        consts = {}
+        for a in hf.args.args:
+            v = bound.get(a.arg, dfl.get(a.arg))
+            if v is None:
+                continue
+            if isinstance(v, ast.Constant):
+                consts[a.arg] = v
+            else:
+                pre.append(ast.Assign(targets=[ast.Name(id=a.arg, ctx=ast.Store())], value=v, lineno=st.lineno))
+        body = copy.deepcopy(hf.body)
+
+        class Const(ast.NodeTransformer):
+            def visit_Name(self_, n):
+                if isinstance(n.ctx, ast.Load) and n.id in consts:
+                    return ast.copy_location(copy.deepcopy(consts[n.id]), n)
+                return n
+        body = [Const().visit(b) for b in body]
+        target = item.optional_vars.id if isinstance(item.optional_vars, ast.Name) else None
+        found = []
+
+        class Sub(ast.NodeTransformer):
+            def visit_Expr(self_, n):
+                if isinstance(n.value, ast.Yield):
+                    found.append(n)
+                    stmts = []
+                    if target is not None and isinstance(n.value.value, ast.Name):
+                        stmts.append(ast.Assign(targets=[ast.Name(id=target, ctx=ast.Store())], value=n.value.value, lineno=st.lineno))
+                    blk = ast.If(test=ast.Constant(value=True), body=stmts + list(st.body), orelse=[], lineno=st.lineno)
+                    return blk
+                return n
+        body = [Sub().visit(b) for b in body]
+        if len(found) != 1:
+            raise Unsupported(st, 'context-manager helper without exactly one yield')
+        for b in pre + body:
+            ast.fix_missing_locations(b)
+        self.effects_seen.add(f"with {hf.name}(…) [inlined]")
+        return self.block(pre + body, {state})
 
     def run(self, fs0: FS):
         """returns set of final states; every intermediate state is recorded in visited."""
@@ -219,6 +282,7 @@ class Interp:
                 ex = bound.get(p, dfl.get(p))
                 flags[p] = const_of(ex) if ex is not None else None
             sub = Interp(wfn, wmod, flags, path_binding={params[0]: key})
+            sub.write_exceptions = self.write_exceptions
             sub.visited = self.visited
             sub.effects_seen = self.effects_seen
             n, r, t = sub.block(wfn.body, {(fs, ())})
@@ -322,6 +386,27 @@ class Interp:
                             new.add((nf, tuple(sorted(e2.items()))))
                         cur = new
                         opened.append('@' + (item.optional_vars.id if isinstance(item.optional_vars, ast.Name) else f"anon{st.lineno}"))
+                elif isinstance(ce, ast.Call) and dotted_name(ce.func) == 'os.fdopen' and ce.args and isinstance(ce.args[0], ast.Name) and ('#' + ce.args[0].id) in env:
+                    spec = env['#' + ce.args[0].id]
+                    key, tail = (spec[:-5], True) if spec.endswith('|tail') else (spec, False)
+                    text = f"os.fdopen(<fd of name{key}>)"
+                    self.effects_seen.add(text)
+                    hname = '@' + (item.optional_vars.id if isinstance(item.optional_vars, ast.Name) else f"anon{st.lineno}")
+                    new = set()
+                    for f, e in cur:
+                        e2 = dict(e)
+                        e2[hname] = key
+                        if tail:
+                            e2['%tail' + hname] = key
+                        nf = f if tail else f.set(key, P)
+                        if tail and f.get(key) != P:
+                            nf = f.set(key, P)      # from the first byte written the file is a mixture of new head and old tail
+                        self.visit(nf, st, text)
+                        new.add((nf, tuple(sorted(e2.items()))))
+                    cur = new
+                    opened.append(hname)
+                elif isinstance(ce, ast.Call) and self._context_helper(ce) is not None:
+                    return self._inline_context_helper(st, item, ce, state)
                 elif self._has_fs_call(ce):
                     raise Unsupported(ce, 'context manager with file-system effect not understood')
             n, r, t = self.block(st.body, cur)
@@ -335,7 +420,12 @@ class Interp:
                     for h in opened:
                         key = ed.pop(h, None)
                         # the handle may have followed its file across a rename; a removed file stays absent
+                        tail = ed.pop('%tail' + h, None)
                         if key is not None and f.get(key) == P:
+                            if tail is not None:
+                                # not truncated on open: if the new content is shorter than what was there, the rest of the old file follows it
+                                self.visit(f, st, 'close (file was opened without O_TRUNC: the tail of a longer old file survives)')
+                                out.add((f, tuple(sorted(ed.items()))))
                             f = f.set(key, C)
                     self.visit(f, st, 'close')
                     out.add((f, tuple(sorted(ed.items()))))
@@ -367,8 +457,11 @@ class Interp:
                 t |= t2
             if st.finalbody:
                 n, r3, t3 = self.block(st.finalbody, n)
-                r |= r3
-                t |= t3
+                # an exception (or a return) on its way out runs the finally block too
+                rn, rr, rt = self.block(st.finalbody, r) if r else (set(), set(), set())
+                tn, tr, tt = self.block(st.finalbody, t) if t else (set(), set(), set())
+                r = rn | rr | r3 | tr
+                t = tn | tt | t3 | rt
             return n, r, t
         if isinstance(st, ast.Return):
             if st.value is not None and self._has_fs_call(st.value):
@@ -387,6 +480,47 @@ class Interp:
                     env[nm] = key
                 nf = fs.set(key, C) if vdn == 'tempfile.mkstemp' else fs
                 return {(nf, tuple(sorted(env.items())))}, E, E
+            if isinstance(tgt, ast.Name) and vdn == 'os.open' and isinstance(v, ast.Call) and len(v.args) >= 2:
+                key = self.path_key(v.args[0], env)
+                ftxt = ast.unparse(v.args[1])
+                trunc, creat, excl = 'O_TRUNC' in ftxt, 'O_CREAT' in ftxt, 'O_EXCL' in ftxt
+                text = f"os.open(name{key}, {ftxt})"
+                self.effects_seen.add(text)
+                prev = fs.get(key)
+                if prev == A and not creat:
+                    return E, {state}, E
+                if prev != A and excl:
+                    return E, {state}, E
+                nf = fs
+                keep_tail = False
+                if prev == A or trunc:
+                    nf = fs.set(key, P)
+                else:
+                    keep_tail = True      # the old content stays until it is overwritten; what is not overwritten stays for good
+                self.visit(nf, st, text)
+                env['#' + tgt.id] = key + ('|tail' if keep_tail else '')
+                return {(nf, tuple(sorted(env.items())))}, E, E
+            if isinstance(tgt, ast.Name) and vdn in ('open', 'io.open') and isinstance(v, ast.Call) and v.args:
+                mode = 'r'
+                if len(v.args) > 1 and isinstance(v.args[1], ast.Constant):
+                    mode = str(v.args[1].value)
+                for kw in v.keywords:
+                    if kw.arg == 'mode' and isinstance(kw.value, ast.Constant):
+                        mode = str(kw.value.value)
+                if any(ch in mode for ch in 'wax+'):
+                    key = self.path_key(v.args[0], env)
+                    text = f"open(name{key!s}, {mode!r})"
+                    self.effects_seen.add(text)
+                    if 'x' in mode and fs.get(key) != A:
+                        return E, {state}, E
+                    nf = fs.set(key, P)
+                    self.visit(nf, st, text)
+                    env['@' + tgt.id] = key
+                    return {(nf, tuple(sorted(env.items())))}, E, E
+                return {state}, E, E
+            if isinstance(tgt, ast.Name) and isinstance(v, ast.Name) and ('@' + v.id) in env:
+                env['@' + tgt.id] = env['@' + v.id]      # another name for an open handle
+                return {(fs, tuple(sorted(env.items())))}, E, E
             if isinstance(tgt, ast.Name):
                 if self.is_path_expr(v, env):
                     env[tgt.id] = self.path_key(v, env)
@@ -404,6 +538,26 @@ class Interp:
             res = self.fs_call(st.value, st, state)
             if res is not None:
                 return res
+            # writing into an open file can end in an exception (unserialisable state, ENOSPC, a second Ctrl-C): the process then dies by unwinding,
+            # which runs the enclosing with-exits and finally blocks with the file still partial
+            handles = {k[1:] for k in env if k.startswith('@')}
+            c0 = st.value
+            if isinstance(c0.func, ast.Attribute) and c0.func.attr == 'close' and isinstance(c0.func.value, ast.Name) and c0.func.value.id in handles:
+                h = '@' + c0.func.value.id
+                key = env.pop(h)
+                broken = env.pop('!' + h, None)
+                nf = fs
+                if fs.get(key) == P and not broken:
+                    nf = fs.set(key, C)
+                self.visit(nf, st, 'close' + (' (after an exception: the content is incomplete)' if broken else ''))
+                return {(nf, tuple(sorted(env.items())))}, E, E
+            if self.write_exceptions and handles and any(isinstance(x, ast.Name) and x.id in handles for x in ast.walk(st.value)):
+                self.effects_seen.add('exception while writing')
+                e2 = dict(env)
+                for hname in handles:
+                    if any(isinstance(x, ast.Name) and x.id == hname for x in ast.walk(st.value)):
+                        e2['!@' + hname] = '1'
+                return {state}, {(fs, tuple(sorted(e2.items())))}, E
             return {state}, E, E
         if isinstance(st, (ast.Pass, ast.Import, ast.ImportFrom, ast.Global, ast.Nonlocal, ast.Assert)):
             return {state}, E, E
@@ -542,6 +696,52 @@ def flag_values(ctx, fn, flag_names, m, call, depth=0) -> List[Tuple[Dict[str, o
     return out
 
 
+def check_reader_side(ctx, rep):
+    """C18.R — resuming only reads: the code that loads a checkpoint never renames, removes or rewrites the checkpoint files (a '.new' left by a crash may be partial)"""
+    m = ctx.prog.module('torchtree.torchtree')
+    fn = m.functions.get('main')
+    if fn is None:
+        raise AnalysisError('torchtree.main not found')
+    # names derived from arg.checkpoint
+    derived = set()
+    changed = True
+    while changed:
+        changed = False
+        for st in ast.walk(fn):
+            tgts = []
+            src = None
+            if isinstance(st, ast.For):
+                tgts, src = [st.target], st.iter
+            elif isinstance(st, ast.Assign):
+                tgts, src = st.targets, st.value
+            if src is None:
+                continue
+            from_ck = any((isinstance(x, ast.Attribute) and x.attr == 'checkpoint') or (isinstance(x, ast.Name) and x.id in derived) for x in ast.walk(src))
+            if from_ck:
+                for t in tgts:
+                    for x in ast.walk(t):
+                        if isinstance(x, ast.Name) and x.id not in derived:
+                            derived.add(x.id)
+                            changed = True
+    offenders = []
+    for c in ast.walk(fn):
+        if not isinstance(c, ast.Call):
+            continue
+        dn = dotted_name(c.func) or ''
+        touches = any(isinstance(x, ast.Name) and x.id in derived for a in c.args for x in ast.walk(a))
+        if not touches:
+            continue
+        if dn in RENAME_CALLS | REMOVE_CALLS | {'os.link', 'os.truncate', 'shutil.copy', 'shutil.copyfile', 'shutil.copy2'}:
+            offenders.append(c)
+        if dn in ('open', 'io.open'):
+            mode = c.args[1].value if len(c.args) > 1 and isinstance(c.args[1], ast.Constant) else next((k.value.value for k in c.keywords if k.arg == 'mode' and isinstance(k.value, ast.Constant)), 'r')
+            if any(ch in str(mode) for ch in 'wax+'):
+                offenders.append(c)
+    rep.check('C18.R', 'main::resuming-only-reads-the-checkpoint-files', not offenders, where(m, offenders[0] if offenders else fn), {'derived_names': sorted(derived)},
+              f"main() changes the checkpoint files while resuming (`{norm_text(offenders[0])[:70] if offenders else ''}`): a '.new' left behind by a killed write may be partial, "
+              f"and promoting or deleting files here can destroy the last complete checkpoint")
+
+
 def run(ctx, rep):
     rep.explanation = (
         "File typestate analysis of the checkpoint writer: its body is abstractly interpreted over "
@@ -552,6 +752,7 @@ def run(ctx, rep):
     rep.rule('C18.I1', "at every reachable crash state some of name/name.old/name.new holds a complete file")
     rep.rule('C18.I2', "at every reachable crash state the checkpoint name itself is not a partial (truncated) file")
     rep.rule('C18.X', "every reachable call completes: no file-system operation raises on a state the protocol itself can produce")
+    rep.rule('C18.R', "the resume path only reads the checkpoint files")
     rep.rule('C18.W', "an attribute that supplies the writer's path (self.checkpoint) is never opened for writing directly in any class")
     rep.assumptions += [
         "os.rename/os.replace atomically replace an existing target and raise when the source is absent (POSIX)",
@@ -559,6 +760,8 @@ def run(ctx, rep):
         "the process dying = crash at any instant; durability against power loss (fsync) is not considered",
     ]
     rep.not_decided += ["durability without fsync on power loss", "content of the file (that json.dump emits the new state)"]
+    global _PROG
+    _PROG = ctx.prog
     m = ctx.prog.module(WRITER)
     if WRITER_FN not in m.functions:
         raise AnalysisError(f"{WRITER}.{WRITER_FN} not found")
@@ -646,6 +849,9 @@ def run(ctx, rep):
             continue
         total_states += len(seen)
         total_trans += trans
+        if flags.get('safely', True) is not False and not any(e_.startswith('open(') or e_.startswith('os.fdopen') or e_.startswith('os.open') for e_ in interp.effects_seen):
+            rep.incomplete('C18.I1', f"{ftxt}::writer-effects", where(m, fn), f"no write to a file was recognised in the writer (effects seen: {sorted(interp.effects_seen)}): the protocol "
+                           f"was not analysed")
         bad1 = [s for s in seen if not any(s.get(k) == C for k in SIBLINGS)]
         bad2 = [s for s in seen if s.get('') == P]
         facts = {
@@ -673,6 +879,7 @@ def run(ctx, rep):
         stuck = []
         for s in sorted(seen, key=repr):
             it = Interp(fn, m, flags)
+            it.write_exceptions = False      # C18.X is about the protocol itself: a run in which nothing fails must complete
             it.visit(s, fn, 'entry')
             n, r, t = it.block(fn.body, {(s, ())})
             if r:
@@ -707,9 +914,29 @@ def run(ctx, rep):
                         mode = kw.value.value
                 if uses and any(ch in str(mode) for ch in 'wax+'):
                     offenders.append(node)
+            # removing / renaming away / linking onto the checkpoint name outside the writer opens a window in which the name holds no complete file
+            if isinstance(node, ast.Call) and (dotted_name(node.func) or '') in (REMOVE_CALLS | RENAME_CALLS | {'os.link', 'os.symlink', 'os.truncate', 'shutil.copy', 'shutil.copyfile', 'shutil.copy2'}) and node.args:
+                fn2 = enclosing_function(node)
+                if fn2 is not None and any(isinstance(c2, ast.Call) and (dotted_name(c2.func) or '').split('.')[-1] == WRITER_FN for c2 in ast.walk(fn2)):
+                    continue       # analysed as a whole in caller mode above
+                alias = set()
+                if fn2 is not None:
+                    for st in ast.walk(fn2):
+                        if isinstance(st, ast.Assign) and len(st.targets) == 1 and isinstance(st.targets[0], ast.Name) and self_attrs(st.value) & attrs \
+                                and isinstance(st.value, ast.Attribute):
+                            alias.add(st.targets[0].id)
+                dn2 = dotted_name(node.func)
+                # destructive for the checkpoint name: it is the thing removed / the source of a move / the target of a non-atomic creation
+                victims = [node.args[0]] if dn2 in REMOVE_CALLS | RENAME_CALLS | {'os.truncate'} else [node.args[-1]]
+                for v_ in victims:
+                    direct = isinstance(v_, ast.Attribute) and isinstance(v_.value, ast.Name) and v_.value.id == 'self' and v_.attr in attrs
+                    if direct or (isinstance(v_, ast.Name) and v_.id in alias):
+                        offenders.append(node)
         rep.check('C18.W', f"{ci.qualname}", not offenders, where(ci.module, offenders[0] if offenders else ci.node),
-                  {'path_attributes': sorted(used)},
-                  f"the checkpoint path self.{sorted(used)[0]} is opened for writing directly, bypassing the crash-safe writer")
+                  {'path_attributes': sorted(used), 'offending_calls': [norm_text(o)[:60] for o in offenders]},
+                  f"the checkpoint path self.{sorted(used)[0]} is written / removed / re-linked directly (`{norm_text(offenders[0])[:60] if offenders else ''}`), bypassing the crash-safe "
+                  f"writer: between that call and the next one the checkpoint name holds no complete file")
+    check_reader_side(ctx, rep)
     rep.extra['states'] = total_states
     rep.extra['transitions'] = total_trans
     rep.extra['flag_combinations'] = [dict(c) for c in combos]
